@@ -126,6 +126,9 @@ class Engine(Interp, ExecMixin, EvalMixin, CallMixin, BuiltinMixin):
                 nd.append(b)
                 alts.append((b, ("raise", cls)))
             normal = z3.And([z3.Not(cc) for _, cc in conds] + [z3.Not(b) for b in nd]) if (conds or nd) else z3.BoolVal(True)
+            mri = [self.truthy(st, self.ev_spec(st, e)) for e in (c.options.get("must_raise_if") or [])]
+            if mri:
+                normal = z3.And(normal, z3.Not(z3.Or(mri)))
             nri = [self.truthy(st, self.ev_spec(st, e)) for e in (c.options.get("no_raise_if") or [])]
             if nri:
                 alts = [(z3.And(a, z3.Not(z3.Or(nri))), p) for a, p in alts]
@@ -145,6 +148,7 @@ class Engine(Interp, ExecMixin, EvalMixin, CallMixin, BuiltinMixin):
                 return res
             for e in c.ensures_raise:
                 st.assume(self.truthy(st, self.ev_spec(st, e)))
+            st.ghost.setdefault("effects", []).append(("raise:" + short, "raise:" + short, list(args), dict(kwargs), None))
             raise PyRaise(self.make_exc(st, outcome[1], []))
         finally:
             st.old_heap, st.old_env = saved_old
@@ -271,6 +275,7 @@ class Engine(Interp, ExecMixin, EvalMixin, CallMixin, BuiltinMixin):
             self.current_rank = None
         raise_conds = [(cls, self.truthy(st, self.ev_spec(st, cond))) for cls, cond in c.raises]
         no_raise = [self.truthy(st, self.ev_spec(st, e)) for e in (c.options.get("no_raise_if") or [])]
+        must_raise = [self.truthy(st, self.ev_spec(st, e)) for e in (c.options.get("must_raise_if") or [])]
         self.ghost_env = {nm: env[nm] for nm, _ in c.fresh}
         self.body_contract_obj = c
         args = [env[p] for p, _ in c.params]
@@ -341,11 +346,16 @@ class Engine(Interp, ExecMixin, EvalMixin, CallMixin, BuiltinMixin):
             if c.returns:
                 res = self.coerce_result(st, res, c.returns)
             env["result" if "result" not in [p for p, _ in c.params] else "result_"] = res
+            for le in c.options.get("use_lemma") or []:
+                self.ev(st, le)          # ghost call at exit: the lemma's requires are obligations, its ensures are assumed
+            env["result" if "result" not in [p for p, _ in c.params] else "result_"] = res
             for i, e in enumerate(c.options.get("ensures_effects") or []):
                 self.oblige(st, f"{short}#effects[{i}]", self.truthy(st, self.ev_spec(st, e)), "post", assume_after=False,
                             meta={"clause": ast.unparse(e)})
             for i, (cls, cc) in enumerate(raise_conds):
                 self.oblige(st, f"{short}#raises-iff[{cls}.{i}]", z3.Not(cc), "raises", assume_after=False)
+            for i, g in enumerate(must_raise):
+                self.oblige(st, f"{short}#must-raise-if[{i}]", z3.Not(g), "raises", assume_after=False)
             for i, e in enumerate(c.ensures):
                 self.oblige(st, f"{short}#post[{i}]", self.truthy(st, self.ev_spec(st, e)), "post", assume_after=False,
                             meta={"clause": ast.unparse(e)})
